@@ -99,11 +99,12 @@ func c14H2Cases(c *gen.Ctx) {
 		"resp-trailers-only", "resp-trailers", "resp-data-es", "resp-rst", "goaway", "close", "req-rst", "resp-rst-before-headers",
 	}
 	n := 0
+	sid := uint32(1)
 	emit := func(server bool, frames []c15Frame, part func(int, int) []int, note string) {
 		n++
 		for i := range frames {
 			if frames[i].T != "G" {
-				frames[i].ID = 1
+				frames[i].ID = sid
 			}
 		}
 		_, _, lens := c15Build(frames)
@@ -165,4 +166,55 @@ func c14H2Cases(c *gen.Ctx) {
 			}
 		}
 	}
+	// ---- GOAWAY with last-stream-id below / EQUAL / above the stream's id (and 2^31-1), from either peer,
+	// before, in the middle of and after the bodies, followed by MORE body frames and the regular end:
+	// a stream with id <= last-stream-id is still served, its body events are those of ALL bytes
+	respMsgs := append(append(c15Msg(0, []byte("xyz")), c15Msg(1, []byte("more"))...), c15Msg(2, []byte("{}"))...)
+	for _, id := range []uint32{1, 3} {
+		sid = id
+		for _, last := range []uint32{0, id - 1, id, id + 2, 1<<31 - 1} {
+			if last == id-1 && id == 1 {
+				continue // = 0
+			}
+			for pos := 0; pos < 4; pos++ {
+				for gi, gdir := range []string{"p", "q"} {
+					for _, server := range []bool{false, true} {
+						k++
+						if !c.Thorough() && last != id && (k+pos)%2 == 0 {
+							continue
+						}
+						cut := []int{2, 7, 12, len(reqBody)}[(k+gi)%4]
+						goaway := c15Frame{D: gdir, T: "G", Last: last, Code: []uint32{0, 0, 2}[k%3]}
+						ct := reqCTs[k%3]
+						frames := []c15Frame{c15H("q", c15ReqFields("h2", ct, "/svc.S/M"), false)}
+						if pos == 0 {
+							frames = append(frames, goaway)
+						}
+						frames = append(frames, c15D("q", reqBody[:cut], false))
+						if pos == 1 {
+							frames = append(frames, goaway)
+						}
+						frames = append(frames, c15D("q", reqBody[cut:], true),
+							c15H("p", c15RespFields("200", []string{"application/grpc", "application/connect+proto"}[k%2]), false),
+							c15D("p", respMsgs[:10], false))
+						if pos == 2 {
+							frames = append(frames, goaway)
+						}
+						frames = append(frames, c15D("p", respMsgs[10:], false), c15H("p", [][2]string{{"grpc-status", "0"}}, true))
+						if pos == 3 {
+							frames = append(frames, goaway)
+						}
+						rel := "below"
+						if last == id {
+							rel = "equal"
+						} else if last > id {
+							rel = "above"
+						}
+						emit(server, frames, parts[k%len(parts)], "goaway-last-"+rel)
+					}
+				}
+			}
+		}
+	}
+	sid = 1
 }
